@@ -108,6 +108,41 @@ func forHeader(body ast.Node) string {
 	return res
 }
 
+// firstAssignText returns the text of the first assignment statement (any operator) to lhs.
+func firstAssignText(body ast.Node, lhs string) string {
+	res := "unknown"
+	if body == nil {
+		return res
+	}
+	done := false
+	ast.Inspect(body, func(n ast.Node) bool {
+		if done {
+			return false
+		}
+		if a, ok := n.(*ast.AssignStmt); ok && len(a.Lhs) == 1 && text(a.Lhs[0]) == lhs {
+			res, done = text(a), true
+			return false
+		}
+		return true
+	})
+	return res
+}
+
+// ddIfConds lists the conditions of all if statements in body, in source order.
+func ddIfConds(body ast.Node) []string {
+	var r []string
+	if body == nil {
+		return r
+	}
+	ast.Inspect(body, func(n ast.Node) bool {
+		if s, ok := n.(*ast.IfStmt); ok {
+			r = append(r, text(s.Cond))
+		}
+		return true
+	})
+	return r
+}
+
 func factsDedup() {
 	cf := parse("pkg/dedup/chunk_iter.go")
 	toChunk := body(fn(cf, "aggrChunkIterator", "toChunk"))
@@ -129,4 +164,26 @@ func factsDedup() {
 	emitList("dedupPenA", src+".Next: values assigned to it.penA, in source order", assignsTo(next, "it.penA"))
 	emitList("dedupPenB", src+".Next: values assigned to it.penB, in source order", assignsTo(next, "it.penB"))
 	emitList("dedupUseA", src+".Next: values assigned to it.useA, in source order", assignsTo(next, "it.useA"))
+
+	// C02: counter adjustment
+	adj := body(fn(f, "counterErrAdjustSeriesIterator", "adjustAtValue"))
+	emitStr("ctrAdjustCond", "pkg/dedup/iter.go counterErrAdjustSeriesIterator.adjustAtValue: when the replica is adjusted", firstIfCond(adj, "lastFloatValue"))
+	emitStr("ctrAdjustStmt", "pkg/dedup/iter.go counterErrAdjustSeriesIterator.adjustAtValue: the adjustment", firstAssignText(adj, "it.errAdjust"))
+	emitStr("dedupSwitchCond", src+".Next: when the deferred adjustAtValue runs", firstIfCond(next, "lastUseA"))
+	nadj := body(fn(f, "dedupSeriesIterator", "adjustAtValue"))
+	emitList("dedupAdjustCalls", src+".adjustAtValue: forwarded to both sides", callSeq(nadj, "it.a.adjustAtValue", "it.b.adjustAtValue"))
+
+	// C04: querier composition
+	osn := body(fn(f, "overlapSplitSet", "Next"))
+	emitStr("overlapSplitFit", "pkg/dedup/iter.go overlapSplitSet.Next: first-fit test", firstIfCond(osn, "currMinTime"))
+	qi := parse("pkg/query/iter.go")
+	csn := body(fn(qi, "chunkSeriesIterator", "Next"))
+	emitList("chunkIterSwitchSeek", "pkg/query/iter.go chunkSeriesIterator.Next: Seek target after switching chunks", callArgs(csn, "it.Seek"))
+	css := body(fn(qi, "chunkSeriesIterator", "Seek"))
+	emitStr("chunkIterSeekStop", "pkg/query/iter.go chunkSeriesIterator.Seek: loop exit test", firstIfCond(css, "ct"))
+	qq := parse("pkg/query/querier.go")
+	sel := body(fn(qq, "querier", "selectFn"))
+	emitList("selectFnPipeline", "pkg/query/querier.go querier.selectFn: set constructors in source order", callSeq(sel, "NewPromSeriesSet", "newStoreSeriesSet", "dedup.NewOverlapSplit", "dedup.NewSeriesSet"))
+	bs := body(fn(f, "boundedSeriesIterator", "Seek"))
+	emitList("boundedSeekTests", "pkg/dedup/iter.go boundedSeriesIterator.Seek: its if-conditions", ddIfConds(bs))
 }
